@@ -68,6 +68,10 @@ def run_one(ck, prog):
                 else:
                     ck.ob("C19.2", f"{nm}|other-arithmetic|{s['key']}", False, fn=fn["path"], site=span_str(s["sp"]), detail=f"unexpected unchecked arithmetic {s['key']} in a checked time function")
             elif s["kind"].startswith(("call:unwrap", "call:expect", "explicit")):
+                dis, dwhy = panics.discharge(ctx, s)
+                if dis:
+                    ck.note(f"{nm}: an assertion is present but cannot fail ({dwhy})")
+                    continue
                 ck.ob("C19.1", f"{nm}|panicking-call|{s['key']}", False, fn=fn["path"], site=span_str(s["sp"]), detail="a panicking call in a function that must return None instead")
         # casts on seconds
         for b in fn["blocks"]:
@@ -85,6 +89,12 @@ def run_one(ck, prog):
                 n_checked_ops += 1
                 # result goes through `?` (Try::branch) -> from_residual / None return
                 used_q = any(mentions(ctx.args(b2)[0], ctx.prov, lambda z: z[0] == "call" and z[3] == bb) for b2, t2 in cfg.calls(lambda t2: (t2.get("callee") or "").endswith("Try::branch")))
+                if not used_q:
+                    # the same propagation written as a match: from the result's None edge no `Some(..)` result is reachable
+                    none_edges = [e for sb in cfg.live_blocks() if cfg.term(sb)["k"] == "switch" for e in cfg.succ[sb]
+                                  for f in ctx.edge_facts(e) if f[0] == "variant" and f[2] == "None" and isinstance(strip_casts(f[1]), tuple) and strip_casts(f[1])[0] == "call" and strip_casts(f[1])[3] == bb]
+                    somes = {b["id"] for b in fn["blocks"] if any(st["k"] == "assign" and st["dst"]["l"] == 0 and not st["dst"].get("p") and st["rv"]["k"] == "agg" and st["rv"].get("variant") == "Some" for st in b["stmts"])}
+                    used_q = bool(none_edges) and not any(cfg.reachable_from(e.dst) & somes for e in none_edges)
                 ck.ob("C19.1", f"{nm}|checked-result-propagated|{t['callee'].split('::')[-1]}@{len([1 for x in range(n_checked_ops)])}", used_q or t["dst"]["l"] == 0, fn=fn["path"], site=ctx.site(bb),
                       detail="the Option of a checked seconds operation must be propagated with `?`")
         # the seconds adjustment in the correction branch is exactly one
@@ -125,8 +135,12 @@ def run_one(ck, prog):
                 return {fold(e)}
             for bb in subs:
                 a1 = strip_casts(ctx.args(bb)[1])
-                if isinstance(a1, tuple) and (a1[0] == "var" or (a1[0] == "field" and not mentions(a1, ctx.prov, lambda z: z[0] == "param"))):
+                if isinstance(a1, tuple) and a1[0] == "var":
                     vals |= possible(a1)
+                elif isinstance(a1, tuple) and a1[0] == "field":
+                    pv = possible(a1)       # the projected component only (the tuple's other component holds the operands)
+                    if pv - {None}:
+                        vals |= pv
             ck.ob("C19.2", f"{nm}|borrow-is-zero-or-one", vals == {0, 1}, fn=fn["path"], detail=f"the borrowed seconds must be 0 or exactly 1; found {sorted(str(v) for v in vals)}")
     ck.floor("C19.1", "checked operations on seconds", n_checked_ops, 6)
 
@@ -145,9 +159,10 @@ def run_one(ck, prog):
             for nb in news:
                 sec = strip_casts(ctx.args(nb)[0])
                 facts = panics.dominating_facts(ctx, nb)
-                ge = any(f[0] == "cmp" and ((f[1] == "Ge" and canon(strip_casts(f[2])) == canon(sec) and fold(f[3]) == 0) or
-                                             (f[1] == "Le" and canon(strip_casts(f[3])) == canon(sec) and fold(f[2]) == 0) or
-                                             (f[1] == "Gt" and canon(strip_casts(f[2])) == canon(sec) and fold(f[3]) == -1)) for f in facts)
+                nrm = lambda z: canon(strip_casts(z)).replace("*", "").replace("&", "")  # noqa: E731  (a match guard tests the payload through a reference)
+                ge = any(f[0] == "cmp" and ((f[1] == "Ge" and nrm(f[2]) == nrm(sec) and fold(f[3]) == 0) or
+                                             (f[1] == "Le" and nrm(f[3]) == nrm(sec) and fold(f[2]) == 0) or
+                                             (f[1] == "Gt" and nrm(f[2]) == nrm(sec) and fold(f[3]) == -1)) for f in facts)
                 good = good and ge
             ok = good
         ck.ob("C19.3", "checked_sub_dur|negative-seconds-is-none", ok, fn=f2["path"], detail="a negative seconds result must become None (tv_sec.ge(&0).then_some(tv_sec)?, or the result built only under tv_sec >= 0)")
@@ -214,8 +229,10 @@ def run_one(ck, prog):
                     continue
                 for e in cfg.succ[sb]:
                     for f in ctx.edge_facts(e):
-                        if f[0] == "truth" and f[2] is True and mentions(f[1], ctx.prov, lambda z: z[0] == "const" and z[2] and "EINTR" in z[2]):
-                            eintr.add((e.src, e.dst))
+                        if f[0] == "truth" and isinstance(f[1], tuple) and f[1][0] == "call" and mentions(f[1], ctx.prov, lambda z: z[0] == "const" and z[2] and "EINTR" in z[2]):
+                            is_ne = (f[1][1] or "").endswith("::ne")          # `code != EINTR` is false exactly when the error is EINTR
+                            if f[2] is (not is_ne):
+                                eintr.add((e.src, e.dst))
                         if f[0] == "variant" and f[2] == "Err" and mentions(f[1], ctx.prov, lambda z: z[0] == "call" and z[3] == ns[0]):
                             errs.append(e)
             for e in errs:
